@@ -44,7 +44,7 @@ def _comparable(prop, g, m):
     if any(x.get("_") and x["_"][0] in ("PANIC", "CRASH", "TIMEOUT", "bad-op") for x in (g, m)):
         return True
     rg, rm = g.get("r"), m.get("r")
-    if prop in ("C07", "C08", "C06", "C13"):
+    if prop in ("C07", "C08"):
         return True
     if prop == "C11":
         return rg == "0" and rm == "0"
